@@ -10,7 +10,7 @@ import random
 import sys
 from pathlib import Path
 
-ROOT_ENGINES = ["SEA", "SEAX", "GA", "ADAPT", "MWEA", "DE", "DEd", "SHADE", "LHS", "SOBOL", "CUSTOM", "MEMETIC", "DOC"]
+ROOT_ENGINES = ["SEA", "SEAX", "GA", "ADAPT", "MWEA", "DE", "DEd", "SHADE", "LHS", "SOBOL", "CUSTOM", "MEMETIC", "DOC", "MPL"]
 CHILD_ENGINES = ["SEA", "SEAX", "GA", "ADAPT", "MWEA", "DE", "DEd", "SHADE", "CMA", "CMAw", "CMAs", "LOCAL",
                  "LHS", "SOBOL", "CMA", "LOCAL", "CMA", "CUSTOM", "MEMETIC", "DOC"]
 BOX = ["sym", "asym", "decimal", "tiny", "huge", "unit", "thirds"]
@@ -19,7 +19,7 @@ FNS = ["sphere", "multi", "funnels", "plateau", "zero", "linear", "offset"]
 
 def _level(r: random.Random, engine: str, depth: int, nlevels: int, lowmut: bool) -> dict:
     lv = {"engine": engine}
-    if engine in ("SEA", "SEAX", "GA", "ADAPT", "CUSTOM", "MEMETIC"):
+    if engine in ("SEA", "SEAX", "GA", "ADAPT", "CUSTOM", "MEMETIC", "MPL"):
         lv.update(pop=r.choice([4, 5, 6, 8]), gens=r.choice([1, 2, 2, 3]), k_elites=r.choice([1, 1, 2]))
         if lowmut:
             lv["p_mutation"] = r.choice([0.3, 0.6])
@@ -142,7 +142,7 @@ def random_spec(r: random.Random, idx: int) -> dict:
             if gen == "nbc" and r.random() < 0.5:
                 dfs.append(["nbcfar", r.choice([0.5, 1.5, 3.0]), r.random() < 0.5])
             else:
-                dfs.append(["far", r.choice([0.01, 0.05, 0.2]), r.choice([1, 2, 2])])
+                dfs.append(["far", r.choice([0.01, 0.05, 0.2]), r.choice([1, 2, 2, 3, 4])])
         if r.random() < 0.7:
             dfs.append(["demelimit", r.choice([1, 2, 3])])
         r.shuffle(dfs)
@@ -276,7 +276,7 @@ def engine_specs() -> list[dict]:
         {"engine": "DE", "pop": 6, "gens": 4, "crossover": 0.5}, {"engine": "DEd", "pop": 6, "gens": 3},
         {"engine": "DE", "pop": 6, "gens": 3, "scaling": 1.5}, {"engine": "SHADE", "pop": 6, "gens": 4, "mem": 3},
         {"engine": "CUSTOM", "pop": 6, "gens": 3, "p_mutation": 0.5}, {"engine": "MEMETIC", "pop": 6, "gens": 3, "k_elites": 1},
-        {"engine": "MEMETIC", "pop": 5, "gens": 2, "k_elites": 2, "p_mutation": 0.5},
+        {"engine": "MEMETIC", "pop": 5, "gens": 2, "k_elites": 2, "p_mutation": 0.5}, {"engine": "MPL", "pop": 5, "gens": 3, "k_elites": 1},
     ]
     n = 0
     for v in variants:
